@@ -78,7 +78,7 @@ def externs_for(unit):
 
 def run_verus(path, unit, extra=(), multiple_errors=8, timeout=1200):
     cmd = ["verus", path, "--output-json", "--time", "--multiple-errors", str(multiple_errors),
-           "--error-format=json"] + externs_for(unit) + list(extra)
+           "--error-format=json", "--triggers-mode", "silent"] + externs_for(unit) + list(extra)
     t0 = time.time()
     try:
         pr = subprocess.run(cmd, capture_output=True, text=True, timeout=timeout, cwd=BUILD)
@@ -243,6 +243,16 @@ def run_verus_unit(name, tier, seed):
         rest = f_twin.result()
         extra_res = [(n, f.result()) for (n, f) in extra_runs]
     out["cmds"].append(" ".join(res["cmd"]))
+    with open(path + ".diag.txt", "w") as fh:
+        for d in res["diags"]:
+            fh.write(d.get("rendered") or d.get("message", ""))
+            fh.write("\n")
+        fh.write(res["stderr"])
+    with open(patht + ".diag.txt", "w") as fh:
+        for d in rest["diags"]:
+            fh.write(d.get("rendered") or d.get("message", ""))
+            fh.write("\n")
+        fh.write(rest["stderr"])
     fails, und = classify(u, text, res)
     out["failures"] = fails
     out["undecided"] += und
